@@ -11,16 +11,16 @@ COMMON_NOTE = (" Trusted: z3 5.1 (QF_NRA/nlsat), the axiom schemas for sqrt/sin/
 CLAIMS = {
     "C01": dict(
         text="Bounded SMT checking of the symbolically executed real code: for every dispatch_map entry of every compute module (read from /repo at run time) the module's dispatch entry is executed on object-backend vectors whose coordinates are z3 terms, once stored in the entry's coordinate systems and once in Cartesian coordinates holding the same geometric vector; z3 decides that both results denote the same value for all real operands of the representable domain, and that every sub-expression is defined there.",
-        note="Representable domain as stated in the property (rho>0, -pi<phi<=pi, 0<theta<pi, tau>=0, off-axis for theta/eta, result representable in the returned system) plus per-operation finiteness conditions in props/c01.py::extra_domain. isclose is excluded (system-dependent by definition, see C12). Known findings: Et and to_beta3 for t<0 (known_findings.json)." + COMMON_NOTE,
+        note="Representable domain as stated in the property (rho>0, -pi<phi<=pi, 0<theta<pi, tau>=0, off-axis for theta/eta, result representable in the returned system) plus per-operation finiteness conditions in props/c01.py::extra_domain; spacelike operands (negative stored tau, t^2 = mag^2 - tau^2 > 0) for the unary Lorentz modules and for lower-dimensional vector operations on tau-stored 4D operands. isclose is excluded (system-dependent by definition, see C12). Known findings: Et and to_beta3 for t<0, Mt2 of spacelike vectors with t^2 < z^2 (known_findings.json)." + COMMON_NOTE,
         design="DESIGN.md §4 C01",
     ),
     "C02": dict(
-        text="Bounded SMT checking against an independent reference model: every public accessor/operation of the object backend is executed on z3-term vectors in every coordinate system and z3 decides equality with the documented definition (spec/model.py) for all real operands where the definition is finite.",
-        note="Second operands: Cartesian, same system and one rotating mixed system (all mixes: C01). The float64 rounding clause of the property is not claimed." + COMMON_NOTE,
+        text="Bounded SMT checking against an independent reference model: every public accessor/operation of the object backend is executed on z3-term vectors in every coordinate system and z3 decides equality with the documented definition (spec/model.py) for all real operands where the definition is finite (timelike and, for the accessors defined there, spacelike tau-stored operands). IEEE guard lane: the same dispatch entries executed on an order abstraction of IEEE-754 arithmetic (fresh variable per operation, only facts valid for every correctly rounded result); z3 decides for 1802 variants of 66 modules that every argument reaching sqrt/arccos/arcsin is in the domain under every rounding; abstract counterexamples are replayed on the float64 backend with an instrumented numpy.",
+        note="Second operands: Cartesian, same system and one rotating mixed system (all mixes: C01). The 'small multiple of rounding error' clause of the property is not claimed; the guard lane claims only 'no NaN from sqrt/arccos/arcsin for finite operands' (outside: overflow, underflow of squares, zero denominators, arithmetic on infinities; Mt, boost_beta3, boost_p4, gamma, isclose). Known finding: Mt2 of tau-stored spacelike vectors with t^2 < z^2." + COMMON_NOTE,
         design="DESIGN.md §4 C02",
     ),
     "C03": dict(
-        text="Bounded SMT checking on two backends at once: the object backend and the real NumPy backend classes (on structured arrays of dtype object holding the same z3-term scalars) execute each property/method; per element the array result must be the object result (same term or z3-equal), with the same fields, shape, class and flavor; NumPy x NumPy, NumPy x object, object x NumPy pairings; scalar arguments as scalars and arrays.",
+        text="Bounded SMT checking on two backends at once: the object backend and the real NumPy backend classes (on structured arrays of dtype object holding the same z3-term scalars) execute each property/method; per element the array result must be the object result (same term or z3-equal), with the same fields, shape, class and flavor; NumPy x NumPy, NumPy x object, object x NumPy pairings; scalar arguments as scalars and arrays; keyword-imputed coordinates as arrays; numpy.equal/not_equal/isclose/allclose function forms.",
         note="PARTIAL: Awkward arrays/records are not reachable (C++ buffers). Lane stubs: vector.backends.numpy._is_type_safe (rejects object dtype) and the lane subclasses' lib/_wrap_dispatched_function (DESIGN.md §2.5)." + COMMON_NOTE,
         design="DESIGN.md §4 C03",
     ),
@@ -60,13 +60,13 @@ CLAIMS = {
         design="DESIGN.md §4 C11",
     ),
     "C12": dict(
-        text="Bounded SMT checking of ==, !=, equal, not_equal, isclose for all 184 system pairings in exact reals ('!= is not ==', symmetry, == implies isclose, reflexivity, tolerance monotonicity, same-system characterisations) and in bit-exact IEEE Float64 (QF_FP) for the same-system ==/!= kernels.",
-        note="Tolerance monotonicity in IEEE arithmetic is not claimed (queries do not finish)." + COMMON_NOTE,
+        text="Bounded SMT checking of ==, !=, equal, not_equal, isclose for all 184 system pairings in exact reals ('!= is not ==', symmetry, == implies isclose, reflexivity, tolerance monotonicity, same-system characterisations) and in bit-exact IEEE Float64 (QF_FP) for the same-system ==/!= kernels; NumPy lane: ==, !=, numpy.equal/not_equal/isclose/allclose of the real VectorNumpy classes (arrays of z3-term scalars) against the object-backend methods, element by element.",
+        note="Tolerance monotonicity in IEEE arithmetic is not claimed (queries do not finish). numpy.allclose on one-element views (a reduction of several symbolic truth values is not a term). Awkward arrays are not reachable." + COMMON_NOTE,
         design="DESIGN.md §4 C12",
     ),
     "C13": dict(
-        text="Bounded SMT checking of every range / sign / classification clause in every coordinate system: phi, deltaphi, theta, deltaangle ranges; non-negativity; signs of costheta/cottheta; t from tau (defined for all finite tau); tau sign; beta/gamma; causal predicates disjoint and ordered; directional predicates vs cosine thresholds; definedness obligations for the never-NaN clauses.",
-        note="Exact reals; boundary values of float results under rounding are outside." + COMMON_NOTE,
+        text="Bounded SMT checking of every range / sign / classification clause in every coordinate system: phi, deltaphi, theta, deltaangle ranges; non-negativity; signs of costheta/cottheta; t from tau (defined for all finite tau); tau sign; beta/gamma; causal predicates disjoint and ordered; directional predicates vs cosine thresholds; definedness obligations for the never-NaN clauses; the same ranges for the coordinates stored by vector-valued operations (scale, negation, rotateZ, add, subtract, unit, polar conversion). IEEE guard lane: deltaangle, theta, rho, rho2, mag, mag2, t, t2, tau executed on an order abstraction of IEEE-754 arithmetic (fresh variable per operation, only facts valid for every correctly rounded result): z3 decides that every sqrt/arccos argument is in the domain and the result in range and not NaN under every rounding; abstract counterexamples are replayed on the float64 backend (directed operands a, -a, 3a, -a/7).",
+        note="Exact reals for the clause families; the guard lane covers float64 rounding up to overflow, underflow of squares and zero denominators; float values of phi/deltaphi exactly at +-pi are outside." + COMMON_NOTE,
         design="DESIGN.md §4 C13",
     ),
     "C14": dict(
